@@ -4,8 +4,14 @@ import json
 from vf import e1, target
 from vf.ref.machine import Machine, M32
 from vf.ref import step as rstep
+from vf.ref.snapshot_keys import KEYS
 
 _cfg_cache = {}
+_IDX = __import__('re').compile(r'\[\d+\]')
+
+
+def _strip(k):
+    return _IDX.sub('[]', k)
 
 
 def full_cfg(overrides):
@@ -47,6 +53,8 @@ def compare(M, post, pre):
     for k, v in post.items():
         if k.startswith('mem'):
             continue
+        if k not in KEYS and _strip(k) not in KEYS:
+            continue            # not architectural state (see vf/ref/snapshot_keys.py)
         if k in M.unknown:
             if not isinstance(v, int) or not (0 <= v <= M32):
                 d[k] = ('UNKNOWN but out of range', v)
